@@ -9,7 +9,7 @@ MANIFEST = {
             "C18_exact_insert, C18_exact_upsert / C18_upsert_pk_reject (INSERT .. ON DUPLICATE KEY UPDATE) (for ALL tables, matched key lists, SET functions, tracked column sets: before image = matched rows "
             "as of before, after image = the same keys as of after, unmatched rows unchanged and absent), C18_pk_reject (a key-changing "
             "UPDATE is refused, by a row-by-row unique-check argument), C18_insert_pk / C18_insert_arg_index (recovered keys = inserted "
-            "keys; the argument index arithmetic of multi-row VALUES), C18_args (structural induction over syntax trees: selected "
+            "keys incl. generated keys of batches and of listed NULL/0 values; a mix is refused: C18_insert_mixed_refused; the argument index arithmetic of multi-row VALUES), C18_args (structural induction over syntax trees: selected "
             "arguments = markers of WHERE/ORDER BY/LIMIT in order) over the node-kind table REGENERATED from traversalArgs by a go/ast "
             "translator. Tie: the REAL proxy runs generated DML inside global transactions over fakedb; decoded undo-log images, the "
             "arguments of the before-image query and the table dumps around each statement are compared with the model inside Coq "
@@ -40,8 +40,6 @@ ERR = {1: "accepted/rejected differs from the model", 2: "before image differs f
 # what a listed finding is allowed to look like: any OTHER failure of a statement inside the region is a violation
 FINDING_SIG = {
     "upsert.pk-listed.unique-changed": ("after image rows [] differ",),
-    "insert.pk-null-or-zero": ("rows were matched/inserted but no image was recorded", "after image rows [", "the statement panicked"),
-    "insert.auto-batch": ("the statement panicked",),
 }
 
 
@@ -312,7 +310,8 @@ def run(chk, only=None):
         "the database checks key uniqueness row by row in scan order (MySQL; fakedb does the same) - used by C18_pk_reject",
         "column types limited to integers, strings and NULL (other types: C08)",
         "'exactly the rows it changed' is read as: image keys = rows matched by WHERE/ORDER/LIMIT (a matched row updated to the same value is recorded), changed rows are a subset",
-        "INSERT with an explicit NULL/0 key or an auto-increment batch, string literals or function calls around parameters in WHERE are outside the clean stream",
+        "auto_increment_increment = 1 (the model's generated keys are consecutive; the Go code multiplies by the variable's value)",
+        "string literals or function calls around parameters in WHERE are probe streams (refused statements), not part of the clean stream",
     ]
     return chk.finish()
 
